@@ -59,6 +59,13 @@ var nestedPool = map[string]any{
 	"d": AJSON{Out: `{"a":1,"a":2}`, Cls: "json-dup"},
 	"t": ATo{S: "to-one|s|Sinner"},
 	"p": &APTo{S: "to-two|l|Sx" + opSep + "Sy"},
+	// values whose marshaling fails after part of them was written
+	"f": struct{ List []any }{[]any{1, make(chan int)}},
+	"g": map[string]any{"k": []any{map[string]any{"z": make(chan int)}}},
+	"h": struct {
+		A int
+		M map[string]any
+	}{1, map[string]any{"x": func() {}}},
 }
 
 func runScript(e *jsontext.Encoder, s string) error {
